@@ -31,16 +31,25 @@ theorem c04_batches_cover (P : Perms) (c : Batch.Cfg) (sw : Sweep) (seed : Nat)
     · exact absurd h h0
     · exact applyPerm_perm _ _ _ h
 
+/-- **the order sown is the order recorded**: the shuffle setting handed to the runner that drives the Sower (as the
+two sow methods pass it in the source) is the setting saved in the crop's info file, for every way of making the call
+(`shuffle` given, left at its default, or `None`; `sow_cases`). -/
+theorem runnerShuffle_eq_recorded (o : Obj) (combos : Bool) (shArg : Option Nat) (bs nb : Option Nat) :
+    runnerShuffle combos shArg (sowAttrs o combos shArg bs nb) = (sowAttrs o combos shArg bs nb).shuffle := by
+  cases combos <;> cases shArg <;>
+    simp [runnerShuffle, Gen.sowCombosRunnerShuffle, Gen.Default.sowCombosRunnerShuffle,
+      Gen.sowCasesRunnerShuffle, Gen.Default.sowCasesRunnerShuffle]
+
 /-- what `opSow` on a fresh directory leaves on disk -/
-theorem opSow_fresh (P : Perms) (s s' : St β) (sw : Sweep) (shArg : Option Nat) (bs nb : Option Nat)
-    (hfresh : s.dir = none) (h : opSow P s sw shArg bs nb = .ok s') :
+theorem opSow_fresh (P : Perms) (s s' : St β) (sw : Sweep) (combos : Bool) (shArg : Option Nat) (bs nb : Option Nat)
+    (hfresh : s.dir = none) (h : opSow P s sw combos shArg bs nb = .ok s') :
     ∃ (c : Batch.Cfg) (info : Info) (d : Dir β),
       s'.dir = some d ∧ d.info = some info ∧ d.results = [] ∧
       info.bs = c.batchsize ∧ info.nb = c.numBatches ∧ info.rem = c.remainder ∧
-      info.sweep = (if shArg.isSome then sortByName sw else sw) ∧
-      info.shuffle = (sowAttrs s.obj shArg bs nb).shuffle ∧
-      Batch.chooseBatch info.sweep.locs.length (sowAttrs s.obj shArg bs nb).bs (sowAttrs s.obj shArg bs nb).nb
-        (sowAttrs s.obj shArg bs nb).rem = .ok c ∧
+      info.sweep = (if combos then sortByName sw else sw) ∧
+      info.shuffle = (sowAttrs s.obj combos shArg bs nb).shuffle ∧
+      Batch.chooseBatch info.sweep.locs.length (sowAttrs s.obj combos shArg bs nb).bs (sowAttrs s.obj combos shArg bs nb).nb
+        (sowAttrs s.obj combos shArg bs nb).rem = .ok c ∧
       s'.obj.bs = some c.batchsize ∧ s'.obj.nb = some c.numBatches ∧ s'.obj.rem = some c.remainder ∧
       (∀ k, lookup d.batches k =
         if hk : 1 ≤ k ∧ k ≤ (sownBatches P c info.sweep info.shuffle).length
@@ -53,7 +62,7 @@ theorem opSow_fresh (P : Perms) (s s' : St β) (sw : Sweep) (shArg : Option Nat)
     cases h
     refine ⟨c, _, _, rfl, rfl, rfl, rfl, rfl, rfl, rfl, rfl, hc, rfl, rfl, rfl, ?_⟩
     intro k
-    simp only [sownBatches]
+    simp only [sownBatches, runnerShuffle_eq_recorded]
     rw [lookup_foldl_insert_enum]
     split <;> rfl
 
